@@ -99,11 +99,11 @@ def runParser (s : Str) (o : Opts) (touched : List Char) : Except Exn (Option No
   let (r, env') := (parserRun maxDepth).run { limit := o.limit } env
   (r.map (·.1), env'.touched)
 
-/-- `max(part.pos[1], ef.end) + 1` -/
+/-- `max(part.pos[1], ef.end)` -/
 def nextIndex (part : Node) : Nat :=
   match part.lastHeredocEnd with
-  | some e => max part.pos.2 e + 1
-  | none => part.pos.2 + 1
+  | some e => max part.pos.2 e
+  | none => part.pos.2
 
 /-- the `while index < len(s)` loop of `parse` -/
 def parseLoop (s : Str) (o : Opts) : Nat → Nat → List Node → List Char → Except Exn (List Node) × List Char
